@@ -71,6 +71,18 @@ func c15Gen(tier string, seed int64) []fw.Case {
 		dd := d
 		cases = append(cases, fw.Case{Name: fmt.Sprintf("pingcalls/%s/%s/n=%d/%s", d.Role, d.Reader, d.N, d.Order), Desc: dd, Run: func(r *fw.R) { c15PingCalls(r, dd) }})
 	}
+	nb := tierPick(tier, 64, 1500)
+	for i := 0; i < nb; i++ {
+		d := c15Desc{Kind: "burst", Seed: rng.U64(), Role: bothRoles[i%2], Params: allParams[rng.Intn(len(allParams))], Reader: []string{"CloseRead", "Read"}[i%2], N: 8 + rng.Intn(25)}
+		dd := d
+		cases = append(cases, fw.Case{Name: fmt.Sprintf("burst/%s/%s/n=%d", d.Role, d.Reader, d.N), Desc: dd, Run: func(r *fw.R) { c15Burst(r, dd) }})
+	}
+	na := tierPick(tier, 40, 600)
+	for i := 0; i < na; i++ {
+		d := c15Desc{Kind: "ping-after-local-close", Seed: rng.U64(), Role: bothRoles[i%2], Params: allParams[rng.Intn(len(allParams))], Reader: []string{"none", "CloseRead", "Read"}[i%3], N: 1 + rng.Intn(5)}
+		dd := d
+		cases = append(cases, fw.Case{Name: fmt.Sprintf("ping-after-local-close/%s/%s/n=%d", d.Role, d.Reader, d.N), Desc: dd, Run: func(r *fw.R) { c15AfterLocalClose(r, dd) }})
+	}
 	m := tierPick(tier, 200, 4000)
 	for i := 0; i < m; i++ {
 		d := c15Desc{Kind: "received", Seed: rng.U64()}
@@ -440,3 +452,145 @@ func c15Received(r *fw.R, d c15Desc) {
 }
 
 var _ = websocket.MessageText
+
+// c15Burst releases N Ping calls at the same instant (in rounds) against a peer
+// that answers every Ping frame with its payload: every call must return nil and
+// no two outstanding pings may carry the same payload.
+func c15Burst(r *fw.R, d c15Desc) {
+	r.SetSample(d)
+	setPerturb(d.Seed, 0)
+	c, _, peerEnd, err := libConn(d.Role, d.Params, 0, xport.Plan{}, xport.Plan{})
+	if err != nil {
+		r.Violate("C15/attach-failed", err.Error(), "")
+		return
+	}
+	defer c.CloseNow()
+	defer peerEnd.Close()
+	peer := newRawPeer(peerEnd, d.Role, d.Params, d.Seed)
+	peer.AutoPong = true
+	peer.Start()
+	ctx, cancel := context.WithTimeout(context.Background(), 60*time.Second)
+	defer cancel()
+	if d.Reader == "CloseRead" {
+		c.CloseRead(ctx)
+	} else {
+		go func() {
+			for {
+				if _, _, err := c.Read(ctx); err != nil {
+					return
+				}
+			}
+		}()
+	}
+	what := fmt.Sprintf("%s %s reader=%s burst of %d", d.Role, paramsKey(d.Params), d.Reader, d.N)
+	for round := 0; round < 12; round++ {
+		var n0 int
+		peer.Locked(func() { n0 = len(peer.Conf.Pings) })
+		var start sync.WaitGroup
+		var wg sync.WaitGroup
+		start.Add(1)
+		errs := make([]error, d.N)
+		for i := 0; i < d.N; i++ {
+			wg.Add(1)
+			go func(i int) {
+				defer wg.Done()
+				pctx, pc := context.WithTimeout(ctx, 5*time.Second)
+				defer pc()
+				start.Wait()
+				errs[i] = c.Ping(pctx)
+			}(i)
+		}
+		start.Done()
+		wg.Wait()
+		r.Count("ping_calls", int64(d.N))
+		var payloads [][]byte
+		peer.Locked(func() { payloads = append(payloads, peer.Conf.Pings[n0:]...) })
+		seen := map[string]bool{}
+		for _, pl := range payloads {
+			if seen[string(pl)] {
+				r.Violate("C15/ping-payload-reused", fmt.Sprintf("%s round %d: two concurrently outstanding pings carry payload %q", what, round, pl), "")
+				return
+			}
+			seen[string(pl)] = true
+		}
+		for i, e := range errs {
+			if e != nil {
+				r.Violate("C15/ping-not-completed-by-own-pong/burst", fmt.Sprintf("%s round %d: every Ping frame was answered with its payload, yet call %d returned %v (%d ping frames seen for %d calls)", what, round, i, e, len(payloads), d.N), "")
+				return
+			}
+		}
+		r.Count("pings_completed_by_own_pong", int64(d.N))
+	}
+	r.Key("burst/%s/%s/%s/n=%d", d.Role, d.Reader, paramsKey(d.Params), d.N/8)
+}
+
+// c15AfterLocalClose: the peer sends Pings after it has seen the library's Close
+// frame and before it echoes; the connection is still being read (by Close's
+// wait loop or by the application's reader), so each must be answered.
+func c15AfterLocalClose(r *fw.R, d c15Desc) {
+	r.SetSample(d)
+	c, _, peerEnd, err := libConn(d.Role, d.Params, 0, xport.Plan{}, xport.Plan{})
+	if err != nil {
+		r.Violate("C15/attach-failed", err.Error(), "")
+		return
+	}
+	defer c.CloseNow()
+	defer peerEnd.Close()
+	peer := newRawPeer(peerEnd, d.Role, d.Params, d.Seed)
+	rng := fw.NewRand(d.Seed)
+	var want [][]byte
+	answered := make(chan bool, 1)
+	peer.OnFrame = func(f wire.Frame) {
+		if f.Op != wire.OpClose {
+			return
+		}
+		pay := append([]byte(nil), f.Payload...)
+		go func() {
+			for i := 0; i < d.N; i++ {
+				pl := rng.Bytes(rng.Intn(126))
+				want = append(want, pl)
+				peer.Send(wire.Ping(pl))
+			}
+			ok := peer.Wait(3*time.Second, func() bool { return len(peer.Conf.Pongs) >= d.N })
+			answered <- ok
+			peer.Send(wire.Close(pay))
+		}()
+	}
+	peer.Start()
+	ctx, cancel := context.WithTimeout(context.Background(), 30*time.Second)
+	defer cancel()
+	switch d.Reader {
+	case "CloseRead":
+		c.CloseRead(ctx)
+	case "Read":
+		go func() {
+			for {
+				if _, _, err := c.Read(ctx); err != nil {
+					return
+				}
+			}
+		}()
+	}
+	cerr := c.Close(websocket.StatusNormalClosure, "")
+	what := fmt.Sprintf("%s %s reader=%s: %d Pings sent after the library's Close frame and before the peer's echo", d.Role, paramsKey(d.Params), d.Reader, d.N)
+	select {
+	case ok := <-answered:
+		peer.Locked(func() {
+			got := peer.Conf.Pongs
+			if !ok {
+				r.Violate("C15/received-ping-not-answered/after-local-close", fmt.Sprintf("%s: %d Pongs came back within 3 s (Close returned %v)", what, len(got), cerr), "")
+				return
+			}
+			for i := range want {
+				if !bytes.Equal(got[i], want[i]) {
+					r.Violate("C15/pong-payload-differs", fmt.Sprintf("%s: Pong %d differs", what, i), "")
+					return
+				}
+			}
+			r.Count("received_pings_answered", int64(len(want)))
+		})
+	case <-time.After(10 * time.Second):
+		r.Violate("C15/close-frame-not-seen", what+": the peer never saw the Close frame", "")
+	}
+	r.Key("ping-after-local-close/%s/%s/%s", d.Role, d.Reader, paramsKey(d.Params))
+}
